@@ -276,8 +276,14 @@ fn child(case: &str) -> ! {
             let mac = m.protocol::<Pci>().unwrap().mac_addresses().next().unwrap();
             log(if i == 0 { format!("MACS {}", mac) } else { format!("MAC {} {}", i - 1, mac) });
         }
+        // run_internet returns as soon as every start() has returned; the traffic goes on in spawned tasks
+        let sim = async {
+            let st = run_internet(&machines, None).await;
+            log(format!("SIM {:?}", st));
+            std::future::pending::<()>().await
+        };
         let how = tokio::select! {
-            st = run_internet(&machines, None) => format!("EXIT-{:?}", st),
+            _ = sim => unreachable!(),
             _ = done.notified() => "DONE".to_string(),
             _ = tokio::time::sleep(if paused { Duration::from_secs(3600) } else { Duration::from_secs(10) }) => "HANG".to_string(),
         };
